@@ -392,7 +392,7 @@ def main():
     B.build_many(cfgs + sgs + ["prod-fast"])
     for b in cfgs + sgs:
         run.cov["builds"][b] = B.source_hash()[:16]
-    depth = 5 if thorough else 3
+    depth = 5 if thorough else 4
     for cfg in cfgs:
         history_search(run, cfg, depth if cfg == "prod-san" or thorough else 2)
         L = lib(cfg)
